@@ -289,7 +289,8 @@ def _lookup(prog: Program, run: Run) -> None:
     need = [norm_test(ast.parse(f"not {cname}", mode="eval").body),
             norm_test(ast.parse(f"len({cname}) > 1", mode="eval").body)]
     alt0 = norm_test(ast.parse(f"len({cname}) == 0", mode="eval").body)
-    if main and (need[0] in tests or alt0 in tests) and need[1] in tests and any(
+    alt1 = norm_test(ast.parse(cname, mode="eval").body)  # `if candidates: … else: error`
+    if main and (need[0] in tests or alt0 in tests or alt1 in tests) and need[1] in tests and any(
             "isinstance" in t for t in tests):
         run.ok(R, C, "returns candidates[0] only after: none -> error, several -> error, wrong "
                "type -> error", f.loc)
